@@ -310,3 +310,24 @@ Lemma do_get_xt_published vt s x fuel st n v :
 Proof.
   intros H. cbn [do_get_xt]. unfold body_xt, body_with, get_singleton_t, get_singleton, get_lookup. rewrite H. reflexivity.
 Qed.
+
+(* every name Refresh asked for is published when the runners are called, and stays published *)
+Theorem run_xt_eager_published vt s x o st :
+  fix_c03 vt = true -> run_xt vt s x = (o, Ok st) ->
+  forall n, In n (eager_names (normalise vt s)) -> exists v, alookup n (L1 (reg st)) = Some v.
+Proof.
+  intros Hfix H n Hn. unfold run_xt, run_core_xt in H. destruct (s_loader_fail (normalise vt s)); [discriminate|].
+  destruct (prepare_loop_xt vt (normalise vt s) x (sorted_procs (normalise vt s)) (set_scanned finit))
+    as [o1 [st1|k st1]] eqn:E1; [|discriminate].
+  assert (Ht1 : topX st1).
+  { eapply prepare_loop_xt_top; [exact Hfix| |exact E1]. eapply top_same_core; [|apply top_finit]. repeat split. }
+  destruct (get_each_xt vt (normalise vt s) x (eager_names (normalise vt s)) st1) as [o2 [st2|k st2]] eqn:E2; [|discriminate].
+  destruct (get_each_xt_top vt _ x _ Hfix st1 o2 st2 Ht1 E2) as [_ [_ Hall]].
+  destruct (Hall n Hn) as [v Hv]. exists v.
+  injection H as _ H. revert H. unfold call_runners.
+  destruct (s_app (normalise vt s)) as [[[a rp] cp]|]; [|intros H; inversion H; subst; exact Hv].
+  assert (Hreg : forall ns sta stb, run_each (normalise vt s) ns sta = Ok stb -> reg stb = reg sta).
+  { induction ns as [|m r IH]; intros sta stb Hr; cbn [run_each] in Hr; [inversion Hr; reflexivity|].
+    destruct (runner_fails (normalise vt s) m); [discriminate|]. rewrite (IH _ _ Hr). reflexivity. }
+  intros H. rewrite (Hreg _ _ _ H). exact Hv.
+Qed.
